@@ -137,6 +137,34 @@ CHECKS = {
         "box targets/occluders; exact for points off boundaries, three clauses for objects (rest free).",
         "3/C17",
     ),
+    "C08": (
+        "model_checking",
+        "TLA+ Relations.tla (function specification of bound extraction from requirement syntax: every comparison shape x "
+        "constants, soundness of the tightest interval checked by TLC) and Pruning.tla (feasible positions of lattice programs "
+        "versus the documented pruning techniques); bound to the code by replay of the extracted relations and by differential "
+        "validation: each program compiled with and without pruning, feasible probes must lie in the real pruned region and "
+        "accepted scenes of the unpruned program must be generable",
+        "TLC enumerates every requirement shape and every lattice program of the batch, checks Feasible within PrunedIdeal within "
+        "Base and the soundness of extracted intervals; on the real code a feasible probe outside the pruned region, a satisfiable "
+        "program refused or not terminating, or a non-positional property changed is a violation.",
+        "Lattice sub-universe (rectilinear regions, headings multiple of 90 degrees), marginal feasibility over a finite witness set, "
+        "seeded programs; an unsound interval alone is only an observation unless it changes a pruned region.",
+        "3/C08",
+    ),
+    "C20": (
+        "model_checking",
+        "TLA+ MapCache.tla (cache protocol: Load/EditMap/ChangeOptions/CorruptCache/BumpVersion) model-checked exhaustively and "
+        "replayed behaviour by behaviour on the real Network.fromFile; TLA+ RoadNet.tla (40 named conjuncts of WellFormed from the "
+        "attribute documentation and the maintainers' single-map tests) evaluated by TLC on the exported link structure and measured "
+        "point facts of every present map x parser options x parsed/cached/mutated file; byte-fault sweep of a cache file",
+        "TLC explores every sequence of <= 4 cache actions and checks HitOnlyWhenAllMatch, HitWhenAllMatch, FreshNetwork, "
+        "CacheHonest, WriteRewrites, LoadTotal; every printed behaviour is replayed with hit/miss observed through wrapped "
+        "fromPickle/fromOpenDrive and the loaded network compared with a fresh parse; all present maps are exported and audited "
+        "conjunct by conjunct; 25 in-process mutants of the structure must be flagged.",
+        "State audit, not a proof about the parser; geometric facts measured with shapely at a seeded sample of points; Town03/05 "
+        "placeholders skipped; three known findings.",
+        "3/C20",
+    ),
     "C09": (
         "exploration",
         "TLA+ PyFront.tla (Python 3.12 abstract grammar as data + Rewrite = the documented rewrites, invariants Total / "
